@@ -112,7 +112,22 @@ def _svc(got, root='A'):
         got.append(items)
         return items
     echo_many._pyvc_native = True
+
+    # a repeated member (max_occurs > 1: an array without a wrapper element) of the declared class inside an object
+    Rrep = (A if root == 'A' else B).customize(max_occurs='unbounded')
+    Holder = type(ComplexModel)('Holder', (ComplexModel,), {'__namespace__': TNS, '_type_info': [('label', Unicode), ('kids', Rrep)]})
+    made['Holder'] = Holder
+
+    def get_holder(ctx):
+        return Holder(label='h', kids=get_many(ctx))
+    get_holder._pyvc_native = True
+
+    def echo_holder(ctx, h):
+        got.append(list(h.kids or []))
+        return h
+    echo_holder._pyvc_native = True
     Svc = type(ServiceBase)('Svc', (ServiceBase,), {
+        'get_holder': rpc(_returns=Holder)(get_holder), 'echo_holder': rpc(Holder, _returns=Holder)(echo_holder),
         'get': rpc(Unicode, _returns=R)(get), 'get_many': rpc(_returns=RA)(get_many),
         'echo': rpc(R, _returns=R)(echo), 'echo_many': rpc(RA, _returns=RA)(echo_many)})
     return Svc, (A, B, C, B2, U)
@@ -154,7 +169,7 @@ def _mk_xml(family):
     def ob(c):
         poly = c.choose([True, False], 'polymorphic')
         droot = c.choose(['A', 'Bvar'], 'declared')
-        what = c.choose(['A', 'B', 'C', 'B2', 'many'] if droot == 'A' else ['B', 'C', 'many'], 'returned')
+        what = c.choose(['A', 'B', 'C', 'B2', 'many', 'holder'] if droot == 'A' else ['B', 'C', 'many', 'holder'], 'returned')
         got = []
         Svc, (A, B, C, B2, U) = _svc(got, droot)
         D = A if droot == 'A' else B           # the class the signatures declare (its original)
@@ -165,15 +180,17 @@ def _mk_xml(family):
                 return soap_env(SOAP11_NS if family == 'soap11' else SOAP12_NS, b)
             i = min(x for x in (b.find('>'), b.find('/>')) if x >= 0)
             return (b[:i] + ' xmlns:tns="%s"' % TNS + b[i:]).encode()
-        req = '<tns:get><tns:kind>%s</tns:kind></tns:get>' % what if what != 'many' else '<tns:get_many/>'
+        req = '<tns:get><tns:kind>%s</tns:kind></tns:get>' % what if what not in ('many', 'holder') else '<tns:get_%s/>' % what
         out, status, resp = _call(c, wsgi, wrap(req), 'text/xml')
         c.check('first_call_ok', out.returned and status.startswith('200'), detail=(repr(out), status, resp[:200]))
         if not status.startswith('200'):
             return
         root = etree.fromstring(resp)
-        result = root.xpath('//*[local-name()="getResult" or local-name()="get_manyResult"]')[0]
-        elts = [result] if what != 'many' else list(result)
-        want_classes = {'A': [A], 'B': [B], 'C': [C], 'B2': [B2], 'many': [A, C, B, B2] if droot == 'A' else [B, C, C]}[what]
+        result = root.xpath('//*[local-name()="getResult" or local-name()="get_manyResult" or local-name()="get_holderResult"]')[0]
+        elts = [result] if what not in ('many', 'holder') else [e for e in result if what == 'many' or e.tag.endswith('}kids')]
+        many_classes = [A, C, B, B2] if droot == 'A' else [B, C, C]
+        want_classes = {'A': [A], 'B': [B], 'C': [C], 'B2': [B2], 'many': many_classes, 'holder': many_classes}[what]
+        c.check('every_item_transmitted', len(elts) == len(want_classes), detail=(len(elts), etree.tostring(result)[:300]))
         for elt, cls in zip(elts, want_classes):
             names = [ch.tag.split('}')[-1] for ch in elt]
             flat = wire_names(cls) if poly else wire_names(D)
@@ -203,12 +220,15 @@ def _mk_xml(family):
             nsdecl += ' xmlns:xs="%s"' % TNS
         if what == 'many':
             back = '<tns:echo_many><tns:items%s>%s</tns:items></tns:echo_many>' % (nsdecl, inner)
+        elif what == 'holder':
+            back = '<tns:echo_holder><tns:h%s>%s</tns:h></tns:echo_holder>' % (nsdecl, inner)
         else:
             back = '<tns:echo><tns:a%s%s>%s</tns:a></tns:echo>' % (nsdecl, attrs, inner)
         out2, status2, resp2 = _call(c, wsgi, wrap(back), 'text/xml')
         c.check('second_call_ok', out2.returned and status2.startswith('200'), detail=(status2, resp2[:300], back[:300]))
         if got:
-            objs = got[0] if what == 'many' else [got[0]]
+            objs = got[0] if what in ('many', 'holder') else [got[0]]
+            c.check('every_item_delivered', len(objs) == len(want_classes), detail=(len(objs), len(want_classes)))
             for o, cls in zip(objs, want_classes):
                 wantc = cls if poly else D
                 c.check('same_class_reconstructed', type(o) is wantc or (type(o).__orig__ or type(o)) is wantc,
@@ -238,7 +258,7 @@ def _mk_dict(family, oid=None):
     def ob(c):
         poly = c.choose([True, False], 'polymorphic')
         droot = c.choose(['A', 'Bvar'], 'declared')
-        what = c.choose(['A', 'B', 'C', 'B2', 'many'] if droot == 'A' else ['B', 'C', 'many'], 'returned')
+        what = c.choose(['A', 'B', 'C', 'B2', 'many', 'holder'] if droot == 'A' else ['B', 'C', 'many', 'holder'], 'returned')
         got = []
         Svc, (A, B, C, B2, U) = _svc(got, droot)
         D = A if droot == 'A' else B
@@ -253,7 +273,7 @@ def _mk_dict(family, oid=None):
         else:
             import msgpack
             enc, dec, ctype = (lambda d: msgpack.packb(d)), (lambda b: msgpack.unpackb(b, raw=False, strict_map_key=False)), 'application/x-msgpack'
-        req = {'get': {'kind': what}} if what != 'many' else {'get_many': {}}
+        req = {'get': {'kind': what}} if what not in ('many', 'holder') else {'get_%s' % what: {}}
         out, status, resp = _call(c, wsgi, enc(req), ctype)
         c.check('first_call_ok', out.returned and status.startswith('200'), detail=(repr(out), status, resp[:200]))
         if not status.startswith('200'):
@@ -268,8 +288,10 @@ def _mk_dict(family, oid=None):
         # {"getResponse": {"getResult": {"C": {...}}}}
         (rk, rv), = doc.items()
         (vk, val), = rv.items()
-        vals = [val] if what != 'many' else val
-        want_classes = {'A': [A], 'B': [B], 'C': [C], 'B2': [B2], 'many': [A, C, B, B2] if droot == 'A' else [B, C, C]}[what]
+        vals = [val] if what not in ('many', 'holder') else (val if what == 'many' else (val.get('Holder') or {}).get('kids') or [])
+        many_classes = [A, C, B, B2] if droot == 'A' else [B, C, C]
+        want_classes = {'A': [A], 'B': [B], 'C': [C], 'B2': [B2], 'many': many_classes, 'holder': many_classes}[what]
+        c.check('every_item_transmitted', len(vals) == len(want_classes), detail=(len(vals), repr(val)[:300]))
         for v, cls in zip(vals, want_classes):
             wantc = cls if poly else D
             c.check('wrapper_key_is_runtime_class', isinstance(v, dict) and list(v.keys()) == [wantc.__name__],
@@ -278,11 +300,13 @@ def _mk_dict(family, oid=None):
                 body, = v.values()
                 c.check('fields_ancestors_first', list(body.keys()) == wire_names(wantc), detail=(list(body.keys()),
                                                                                                    wire_names(wantc)))
-        back = {'echo': {'a': val}} if what != 'many' else {'echo_many': {'items': val}}
+        back = {'echo': {'a': val}} if what not in ('many', 'holder') else (
+            {'echo_many': {'items': val}} if what == 'many' else {'echo_holder': {'h': val}})
         out2, status2, resp2 = _call(c, wsgi, enc(back), ctype)
         c.check('second_call_ok', out2.returned and status2.startswith('200'), detail=(status2, resp2[:300]))
         if got:
-            objs = got[0] if what == 'many' else [got[0]]
+            objs = got[0] if what in ('many', 'holder') else [got[0]]
+            c.check('every_item_delivered', len(objs) == len(want_classes), detail=(len(objs), len(want_classes)))
             for o, cls in zip(objs, want_classes):
                 wantc = cls if poly else D
                 c.check('same_class_reconstructed', (type(o).__orig__ or type(o)) is wantc, detail=(type(o).__name__,
@@ -295,3 +319,112 @@ def _mk_dict(family, oid=None):
 
 for _f in ('json', 'yaml', 'msgpack'):
     _mk_dict(_f)
+
+
+def _mk_late(family):
+    P = {'json': JsonDocument, 'yaml': YamlDocument, 'msgpack': MessagePackDocument, 'xml': XmlDocument, 'soap11': Soap11}[family]
+
+    @obligation('C16.late_subclass.%s' % family, targets=['spyne.model.complex:_get_type_info',
+                                                           'spyne.model.complex:ComplexModelBase.get_subclasses',
+                                                           'spyne.protocol.dictdoc.hier:HierDictDocument._doc_to_object',
+                                                           'spyne.protocol.xml:XmlDocument.from_element'],
+                bounded="a class tree of depth 3 that has already served a polymorphic exchange grows by one class (child of "
+                        "the root, of the middle class or of the leaf) before a second application is built",
+                desc="a subclass declared after its ancestors were already used in an exchange is a subclass like any other: "
+                     "sent where the base is declared it is transmitted with its marker and all fields and reconstructed as "
+                     "an instance of that same class")
+    def ob(c):
+        got = []
+        Svc, (A, B, C, B2, U) = _svc(got, 'A')
+        is_xml = family in ('xml', 'soap11')
+        mk = (lambda: P(polymorphic=True)) if is_xml else (lambda: P(ignore_wrappers=False, polymorphic=True))
+        if family == 'json':
+            enc, dec, ctype = (lambda d: json.dumps(d).encode()), (lambda b: json.loads(b.decode())), 'application/json'
+        elif family == 'yaml':
+            import yaml
+            enc, dec, ctype = (lambda d: yaml.safe_dump(d).encode()), (lambda b: yaml.safe_load(b.decode())), 'text/yaml'
+        elif family == 'msgpack':
+            import msgpack
+            enc, dec, ctype = (lambda d: msgpack.packb(d)), (lambda b: msgpack.unpackb(b, raw=False, strict_map_key=False)), 'application/x-msgpack'
+
+        def wrap(b):
+            if family == 'soap11':
+                return soap_env(SOAP11_NS, b)
+            return b.replace('>', ' xmlns:tns="%s" xmlns:xsi="%s">' % (TNS, XSI), 1).encode()
+        # first exchange: the tree as it is
+        wsgi1 = WsgiApplication(Application([Svc], TNS, in_protocol=mk(), out_protocol=mk()))
+        first = c.choose(['B', 'C'], 'first_exchange_carries')
+        # the first exchange sends a subclass instance in (the receiver consults the subclass registry) and gets it back
+        F = {'B': B, 'C': C}[first]
+        ffti = F.get_flat_type_info(F)
+        fvals = {k: v for k, v in dict(a1=1, a2='two', b1=3, c1='four').items() if k in ffti}
+        if is_xml:
+            finner = ''.join('<tns:%s>%s</tns:%s>' % ((ffti[k].Attributes.sub_name or k), fvals[k], (ffti[k].Attributes.sub_name or k))
+                             for k in ffti if k in fvals)
+            if family == 'soap11':
+                req1 = soap_env(SOAP11_NS, '<tns:echo><tns:a xmlns:xsi="%s" xsi:type="tns:%s">%s</tns:a></tns:echo>' % (XSI, first, finner))
+            else:
+                req1 = wrap('<tns:echo><tns:a xsi:type="tns:%s">%s</tns:a></tns:echo>' % (first, finner))
+            out, status, resp = _call(c, wsgi1, req1, 'text/xml')
+        else:
+            fbody = {(ffti[k].Attributes.sub_name or k): fvals[k] for k in ffti if k in fvals}
+            out, status, resp = _call(c, wsgi1, enc({'echo': {'a': {first: fbody}}}), ctype)
+        c.check('first_call_ok', out.returned and status.startswith('200') and len(got) == 1 and type(got[0]) is F,
+                detail=(repr(out), status, resp[:200], [type(x).__name__ for x in got]))
+        # the tree grows
+        parent_name = c.choose(['A', 'B', 'C'], 'late_subclass_of')
+        parent = {'A': A, 'B': B, 'C': C}[parent_name]
+        o = c.run(type(ComplexModel), 'Late', (parent,), {'__namespace__': TNS, 'late1': Integer})
+        c.check('class_declared', o.returned, detail=repr(o))
+        if not o.returned:
+            return
+        Late = o.value
+        got2 = []
+        # the second service declares the very same classes (nothing else is derived or customised in between: that would
+        # reset the registries this obligation is about)
+        def echo(ctx, a):
+            got2.append(a)
+            return a
+        echo._pyvc_native = True
+        Svc2 = type(ServiceBase)('Svc2', (ServiceBase,), {'echo': rpc(A, _returns=A)(echo)})
+        wsgi2 = WsgiApplication(Application([Svc2], TNS, in_protocol=mk(), out_protocol=mk()))
+        vals = dict(a1=1, a2='two', b1=3, c1='four', late1=9)
+        fti = Late.get_flat_type_info(Late)
+        mine = {k: v for k, v in vals.items() if k in fti}
+        if is_xml:
+            inner = ''.join('<tns:%s>%s</tns:%s>' % ((fti[k].Attributes.sub_name or k), v, (fti[k].Attributes.sub_name or k))
+                            for k, v in ((k, mine[k]) for k in fti if k in mine))
+            req2 = wrap('<tns:echo><tns:a xsi:type="tns:Late">%s</tns:a></tns:echo>' % inner) if family != 'soap11' else \
+                soap_env(SOAP11_NS, '<tns:echo><tns:a xmlns:xsi="%s" xsi:type="tns:Late">%s</tns:a></tns:echo>' % (XSI, inner))
+            out2, status2, resp2 = _call(c, wsgi2, req2, 'text/xml')
+        else:
+            body = {(fti[k].Attributes.sub_name or k): mine[k] for k in fti if k in mine}
+            out2, status2, resp2 = _call(c, wsgi2, enc({'echo': {'a': {'Late': body}}}), ctype)
+        c.check('second_call_ok', out2.returned and status2.startswith('200'), detail=(status2, resp2[:300]))
+        c.check('late_subclass_reconstructed', len(got2) == 1 and type(got2[0]) is Late, detail=[type(x).__name__ for x in got2])
+        if got2:
+            c.check('equal_field_values', fields_of(got2[0]) == dict({k: None for k in fti}, **mine), detail=fields_of(got2[0]))
+        if status2.startswith('200'):
+            if is_xml:
+                root = etree.fromstring(resp2)
+                res = root.xpath('//*[local-name()="echoResult"]')[0]
+                xt = res.get('{%s}type' % XSI) or ''
+                c.check('response_marks_the_late_subclass', xt.endswith(':Late') and
+                        [ch.tag.split('}')[-1] for ch in res] == [n for n, k in zip(wire_names(Late), fti) if k in mine],
+                        detail=(xt, [ch.tag for ch in res]))
+            else:
+                def strkeys(o_):
+                    if isinstance(o_, dict):
+                        return {(k.decode() if isinstance(k, bytes) else k): strkeys(v) for k, v in o_.items()}
+                    if isinstance(o_, (list, tuple)):
+                        return [strkeys(x) for x in o_]
+                    return o_
+                sdoc = strkeys(dec(resp2))
+                (rk, rv), = sdoc.items()
+                (vk, val), = rv.items()
+                c.check('response_marks_the_late_subclass', isinstance(val, dict) and list(val.keys()) == ['Late'], detail=val)
+    return ob
+
+
+for _f in ('json', 'yaml', 'msgpack', 'xml', 'soap11'):
+    _mk_late(_f)
